@@ -414,6 +414,15 @@ def check_bij(B, OS, d, l, x, f2=None, U=None):
     for k in ok_names:
         if b.inv @ (b @ nm(k)) != nm(k):
             return dict(what='apply-then-inverse on a string', input=dict(kind='bij', map=d, names=[k]), signature=dict(op='roundtrip', container='str'))
+    # reflected application  x @ M  (str, list, set, dict) equals  M @ x
+    for kind, obj in (('str', names[0] if names else nm(0)), ('list', list(names)), ('set', set(names)), ('dict', {nm(k): v for k, v in x})):
+        try:
+            left, right = obj @ b, b @ obj
+        except Exception as ex:
+            return dict(what=f'reflected application (x @ M) of a Bijection to a {kind} raised {type(ex).__name__}', input=dict(kind='bij', map=d, container=kind), signature=dict(op='reflected-apply', container=kind))
+        if left != right or type(left) is not type(right) or (kind == 'dict' and list(left.items()) != list(right.items())):
+            return dict(what=f'reflected application (x @ M) of a Bijection to a {kind} differs from M @ x', input=dict(kind='bij', map=d, container=kind, x=str(obj)), observed=str(left), expected=str(right),
+                        signature=dict(op='reflected-apply', container=kind))
     dk = [k for k, _ in x if k in keys or k not in set(vals)]
     dd = {nm(k): v for k, v in x if k in dk}
     if (b.inv @ (b @ dd)) != dd or list((b.inv @ (b @ dd)).keys()) != list(dd.keys()) and False:
